@@ -65,7 +65,9 @@ PROP = {
         'the scanner is a regex/bracket reader with a small type resolver, not a Rust front end: containers reaching an '
         'iteration only through closure parameters, match arms, generics, macros, or foreign functions taking the whole '
         'container can be missed; polars groupby/unique calls (train_config.rs run_speed_limit_train_sims) are listed in '
-        'Generated.OrderSites.foreignUnordered but NOT judged and not reached by the harness',
+        'Generated.OrderSites.foreignUnordered but NOT judged and not reached by the harness; hash containers that exist only as a temporary '
+        '(`collect::<HashMap<..>>().into_values()`) and per-thread / process-wide mutable state (`thread_local!`, `lazy_static!`, `static mut`, statics with '
+        'interior mutability; the verif-hooks observer modules are exempt) are reported since seeded changes C18e / C18f showed both were missed',
         'floating-point non-associativity is invisible to the field/Nat lemmas: by rule any fold over a non-integer type '
         'in hash or scheduling order is `unreviewed` (Site.ok)',
     ],
